@@ -158,7 +158,7 @@ def run_monitor(trace, tag):
 
 
 def run_model(name, constants=None, invariants=None, workers=None, timeout=3000, xmx="8g", env=None, tag=None, spec="Spec",
-              simulate=None):
+              simulate=None, properties=None):
     """Bounded model MC_<name>.tla with a generated configuration. Returns states, transitions,
     JSON objects printed by the model (REPLAY lines), violated invariants, per-action coverage."""
     tag = tag or name
@@ -170,6 +170,8 @@ def run_model(name, constants=None, invariants=None, workers=None, timeout=3000,
             f.write("CONSTANTS\n" + "".join("  %s = %s\n" % (k, v) for k, v in constants.items()))
         if invariants:
             f.write("INVARIANTS " + " ".join(invariants) + "\n")
+        if properties:
+            f.write("PROPERTIES " + " ".join(properties) + "\n")
         f.write("CHECK_DEADLOCK FALSE\n")
     rc, text = tlc_raw("MC_%s.tla" % name, cfgp, os.path.join(OUT, "meta", "mc_" + tag),
                        workers=workers or min(NPROC, 8), xmx=xmx, timeout=timeout, env=env,
@@ -184,7 +186,8 @@ def run_model(name, constants=None, invariants=None, workers=None, timeout=3000,
         raise ToolError("TLC model %s produced no state count:\n%s" % (name, text[-3000:]))
     objs = parse_json_prints(text)
     ok = "No error has been found" in text or (simulate is not None and "Error" not in text and not re.search(r"is violated", text))
-    violated = re.findall(r"Invariant (\S+) is violated", text) + re.findall(r"property (\S+) was violated", text)
+    violated = re.findall(r"Invariant (\S+) is violated", text) + re.findall(r"property (\S+) was violated", text) + \
+        (["<temporal property>"] if "Temporal properties were violated" in text else [])
     if not ok and not violated:
         raise ToolError("TLC model %s failed:\n%s" % (name, "\n".join(l for l in text.splitlines() if not l.startswith('"{'))[-3000:]))
     cov = {}
